@@ -27,6 +27,7 @@ const (
 	SecForKind         // for i = 0; VC<r>; i += 1 { break }       non-boolean for condition
 	SecForStep         // for i = 0; i < 1; i += VA<r> { H.Y }     ill-typed for step
 	SecUnb             // for i = 0; VT<r>; i += 0 { j = 1 }       unbounded loop
+	SecUnbCont         // for i = 0; VT<r>; i += 0 { if VT<r> { continue } }   unbounded loop whose body always continues
 	SecConc            // conc { ... } ; H.After(...)              conc block, Arg = child mask
 	SecLocal           // x = H.Fresh(r) ... H.Same(r,x)           local privacy (Same is emitted at the end)
 	SecReader          // H.Same(r, x) without assigning x        must fail with not-found
@@ -54,12 +55,12 @@ const (
 	numSecKinds
 )
 
-var secNames = [...]string{"Y", "Call", "AsgCall", "AsgKind", "Div", "Idx", "Nil", "Unknown", "Arg", "IfKind", "IfIdx", "IfNil", "Elif", "ForKind", "ForStep", "Unb", "Conc", "Local", "Reader", "Stop", "ShW", "ShR", "Upd", "Echo", "Opt", "IfCall", "ForRange", "MapIdx", "SetKind", "SetNil", "RangeKey", "ThreeNil", "IfThreeNil", "ArgCount", "NilMapSet", "FuncCall", "IfFunc", "ThreeSet", "LocObj", "LocObjReader"}
+var secNames = [...]string{"Y", "Call", "AsgCall", "AsgKind", "Div", "Idx", "Nil", "Unknown", "Arg", "IfKind", "IfIdx", "IfNil", "Elif", "ForKind", "ForStep", "Unb", "UnbCont", "Conc", "Local", "Reader", "Stop", "ShW", "ShR", "Upd", "Echo", "Opt", "IfCall", "ForRange", "MapIdx", "SetKind", "SetNil", "RangeKey", "ThreeNil", "IfThreeNil", "ArgCount", "NilMapSet", "FuncCall", "IfFunc", "ThreeSet", "LocObj", "LocObjReader"}
 
 // FaultCapable reports whether a section hosts a fault point.
 func FaultCapable(k int) bool {
 	switch k {
-	case SecCall, SecAsgCall, SecAsgKind, SecDiv, SecIdx, SecNil, SecUnknown, SecArg, SecIfKind, SecIfIdx, SecIfNil, SecElif, SecForKind, SecForStep, SecUnb, SecConc, SecIfCall, SecForRange, SecMapIdx, SecSetKind, SecSetNil, SecThreeNil, SecIfThreeNil, SecArgCount, SecNilMapSet, SecFuncCall, SecIfFunc, SecThreeSet:
+	case SecCall, SecAsgCall, SecAsgKind, SecDiv, SecIdx, SecNil, SecUnknown, SecArg, SecIfKind, SecIfIdx, SecIfNil, SecElif, SecForKind, SecForStep, SecUnb, SecUnbCont, SecConc, SecIfCall, SecForRange, SecMapIdx, SecSetKind, SecSetNil, SecThreeNil, SecIfThreeNil, SecArgCount, SecNilMapSet, SecFuncCall, SecIfFunc, SecThreeSet:
 		return true
 	}
 	return false
@@ -210,6 +211,8 @@ func (r *RuleDef) Render() string {
 			yk++
 		case SecUnb:
 			fmt.Fprintf(&b, "H.B(%d,%d)\nfor i%d = 0; VT%d; i%d += 0 {\nj%d = 1\n}\n", id, p, p, id, p, p)
+		case SecUnbCont:
+			fmt.Fprintf(&b, "H.B(%d,%d)\nfor i%d = 0; VT%d; i%d += 0 {\nif VT%d {\ncontinue\n}\nj%d = 1\n}\n", id, p, p, id, p, id, p)
 		case SecIfCall:
 			fmt.Fprintf(&b, "if H.C(%d,%d) {\nH.Y(%d,%d)\n}\n", id, p, id, yk)
 			yk++
